@@ -403,3 +403,10 @@ Theorem C13_claim_updates_counters :
     end.
 Proof. exact claim_supply. Qed.
 Print Assumptions C13_claim_updates_counters.
+
+(* the hypotheses of the theorems above are checked on every recorded history of the
+   correspondence run ([check_history], [first_mismatch]) through these boolean forms *)
+Theorem C13_checked_hypotheses_sound :
+  forall e s o, (env_wf_b e = true -> env_wf e) /\ (op_ok_b e s o = true -> op_ok e o /\ op_mono s o).
+Proof. intros e s o. split; [apply env_wf_b_sound|apply op_ok_b_sound]. Qed.
+Print Assumptions C13_checked_hypotheses_sound.
